@@ -357,6 +357,14 @@ def check_snapshot(o, A, n_ops, ctx=None, valid=True):
         ctx.stat_orth = max(getattr(ctx, "stat_orth", 0.0), orth)
     if orth > Tol.orth * (4 + n_ops):
         return "||QtQ - I||_max = %.3g (cond estimate %.3g)" % (orth, kappa), "QtQ!=I"
+    # the tracked extreme pivots bound the diagonal of R (Anderson's pivot threshold is max_eig * min_div_fac)
+    # (only while R has a positive diagonal: a negative factor in scale_R — never used by the solvers — flips the signs of both trackers)
+    if qi and "max_eig" in o and "min_eig" in o and all(Rl[j][j] > 0 for j in range(qi)) and unhex(o["min_eig"]) > 0:
+        mx, mn = unhex(o["max_eig"]), unhex(o["min_eig"])
+        if math.isfinite(mx) and max(dg) > mx * (1 + 1e-12):
+            return "get_max_eig() = %r is smaller than the largest |R_ii| = %r" % (mx, max(dg)), "max_eig-below-diagonal"
+        if math.isfinite(mn) and min(dg) < mn * (1 - 1e-12):
+            return "get_min_eig() = %r is larger than the smallest |R_ii| = %r" % (mn, min(dg)), "min_eig-above-diagonal"
     return None, None
 
 def check_solve(o, A, b, tol, xprev, x):
